@@ -48,8 +48,20 @@ def canon(x):
         return {"dtype": str(native.dtype), "shape": list(a.shape), "hex": native.tobytes().hex()}
     if isinstance(x, np.generic):
         return canon(x.item())
-    if xr is not None and isinstance(x, (xr.DataArray, xr.Dataset)):
-        return canon(x.to_dict())
+    if xr is not None and isinstance(x, xr.DataArray):
+        d = canon(x.to_dict())
+        d["dtype"] = str(x.dtype)  # `to_dict` turns the values into nested lists: keep the element type
+        for k in list(d.get("coords", {})):
+            if isinstance(d["coords"][k], dict):
+                d["coords"][k]["dtype"] = str(x.coords[k].dtype)
+        return d
+    if xr is not None and isinstance(x, xr.Dataset):
+        d = canon(x.to_dict())
+        for group in ("data_vars", "coords"):
+            for k in list(d.get(group, {})):
+                if isinstance(d[group][k], dict):
+                    d[group][k]["dtype"] = str(x[k].dtype)
+        return d
     if xr is not None and isinstance(x, xr.DataTree):
         return {k: canon(v) for k, v in sorted(x.to_dict().items())}
     if pd is not None and isinstance(x, pd.DataFrame):
@@ -662,9 +674,12 @@ def req_pipeline(case, files):
 
 
 # ------------------------------------------------------------------ generators
+FLOAT_DTYPES = ["float64", "float64", "float32", "float16"]  # every dtype the float containers accept
+
+
 def gen_arr(rng, dtype="float64"):
     d = {"offset": float(rng.randrange(0, 1000)) / rng.choice([1, 2, 8]), "slope": rng.choice([1.0, 0.5, 3.0, 0.0])}
-    if rng.random() < 0.4:
+    if dtype == "float64" and rng.random() < 0.4:
         d["pokes"] = [[rng.randrange(9), rng.randrange(9), rng.choice([0.0, 1e-300, 12345.678, 1e12, 0.1])] for _ in range(rng.randrange(1, 3))]
     if dtype != "float64":
         d["dtype"] = dtype
@@ -776,17 +791,18 @@ def gen_detector(rng, kind=None):
     c: dict = {}
     p = 0.5
     if rng.random() < p:
-        c["photon"] = ({"kind": "2d", **gen_arr(rng)} if rng.random() < 0.6 else
+        c["photon"] = ({"kind": "2d", **gen_arr(rng, rng.choice(FLOAT_DTYPES))} if rng.random() < 0.6 else
                        {"kind": "3d", "wavelengths": rng.sample([400.0, 500.0, 650.0, 900.0], rng.choice([1, 2, 3])),
-                        "extra": [x for x in ("yx", "scalar", "aux", "attrs", "name") if rng.random() < 0.4], **gen_arr(rng)})
+                        "extra": [x for x in ("yx", "scalar", "aux", "attrs", "name") if rng.random() < 0.4],
+                        **gen_arr(rng, rng.choice(FLOAT_DTYPES))})
     if rng.random() < p:
-        c["pixel"] = gen_arr(rng)
+        c["pixel"] = gen_arr(rng, rng.choice(FLOAT_DTYPES))
     if rng.random() < p:
-        c["signal"] = gen_arr(rng)
+        c["signal"] = gen_arr(rng, rng.choice(FLOAT_DTYPES))
     if rng.random() < p:
         c["image"] = {**gen_arr(rng), "dtype": rng.choice(["uint8", "uint16", "uint32", "uint64"])}
     if rng.random() < p:
-        c["phase"] = gen_arr(rng)
+        c["phase"] = gen_arr(rng, rng.choice(FLOAT_DTYPES))
     if rng.random() < p:
         ch_desc: dict = {}
         if rng.random() < 0.6:
@@ -823,6 +839,22 @@ def gen_roundtrips(rng, n):
                                        {"array": gen_arr(rng)} if nm == "charge" else
                                        {**gen_arr(rng), "dtype": "uint16"} if nm == "image" else gen_arr(rng))
         cases.append({"stream": "roundtrip-subsets", "id": f"s{mask}", "det": d})
+    n = 0
+    for dt in ("float16", "float32", "float64"):
+        for kind in ("2d", "3d"):
+            for ty in TYPES:
+                d = gen_detector(rng, ty)
+                d["setters"], d["emptied"] = [], False
+                ph = {"kind": kind, "offset": 3.0, "slope": 0.5, "dtype": dt}
+                if kind == "3d":
+                    ph.update({"wavelengths": [400.0, 650.0], "extra": []})
+                d["containers"] = {"photon": ph, "pixel": {"offset": 10.0, "slope": 1.0, "dtype": dt},
+                                   "signal": {"offset": 20.0, "slope": 0.25, "dtype": dt},
+                                   "image": {"offset": 30.0, "slope": 1.0, "dtype": ["uint8", "uint16", "uint32", "uint64"][n % 4]}}
+                if ty == "MKID":
+                    d["containers"]["phase"] = {"offset": 40.0, "slope": 1.0, "dtype": dt}
+                cases.append({"stream": "roundtrip-dtypes", "id": f"dt{n}", "det": d})
+                n += 1
     return cases + gen_apd_setter_cases()
 
 
@@ -964,6 +996,10 @@ def body(ck: common.Check):
                 for k, v in impl["before"]["containers"].items():
                     if v is not None:
                         ck.count(f"{s}:container={k}" + ("/3d" if k == "photon" and "array_3d" in v else ""))
+                for k in ("photon", "pixel", "signal", "phase", "image"):
+                    desc = d["containers"].get(k)
+                    if desc and impl["before"]["containers"].get(k) is not None:
+                        ck.count(f"{s}:dtype:{k}" + ("/3d" if desc.get("kind") == "3d" else "") + f"={desc.get('dtype', 'float64')}")
                 for node in d["containers"].get("data") or []:
                     ck.count(f"{s}:data-group={node.get('kind', 'array')}")
                 for x in (d["containers"].get("photon") or {}).get("extra", []):
